@@ -53,6 +53,7 @@ package main
 //@     iterates [C02] at_most_one_copy: outCount[sess] <= prev(outCount[sess]) + 1 && (forall s int :: s != ref(sess) ==> outCount[s] == prev(outCount[s]))
 //@     iterates [C02] data_to_readers_only: msg.Data != nil && msg.Pres == nil && msg.Info == nil && sess.proto != MULTIPLEX && pssd.uid != types.ZeroUid && outCount[sess] != prev(outCount[sess]) ==> sess.sid != msg.SkipSid && (pssd.isChanSub || ((pssd.uid in t.perUser) && (effMode(t, pssd.uid) & types.ModeRead) != 0))
 //@     iterates [C02] data_to_every_reader: msg.Data != nil && msg.Pres == nil && msg.Info == nil && sess.proto != MULTIPLEX && pssd.uid != types.ZeroUid && sess.sid != msg.SkipSid && (pssd.isChanSub || ((pssd.uid in t.perUser) && (effMode(t, pssd.uid) & types.ModeRead) != 0)) ==> outCount[sess] == prev(outCount[sess]) + 1
+//@     iterates [C09,C02] receipts_not_to_channel_readers: msg.Info != nil && msg.Pres == nil && msg.Data == nil && msg.Info.Src == "" && sess.proto != MULTIPLEX && pssd.uid != types.ZeroUid && outCount[sess] != prev(outCount[sess]) ==> !pssd.isChanSub && (pssd.uid in t.perUser) && (effMode(t, pssd.uid) & types.ModeRead) != 0
 //@     iterates [C02] original_untouched: msg.Data != nil ==> msg.Data == prev(msg.Data) && msg.Data.Topic == prev(msg.Data.Topic) && msg.Data.From == prev(msg.Data.From) && msg.Data.SeqId == prev(msg.Data.SeqId) && msg.Data.Content == prev(msg.Data.Content)
 //@   assert at call Session.queueOut [C02] copy_is_faithful: msg.Data != nil ==> $1 != nil && $1 != msg && $1.Data != nil && $1.Data != msg.Data && $1.Data.SeqId == msg.Data.SeqId && $1.Data.Content == msg.Data.Content && $1.Data.Head == msg.Data.Head && $1.Data.Timestamp == msg.Data.Timestamp && (!pssd.isChanSub ==> $1.Data.From == msg.Data.From) && (pssd.isChanSub ==> $1.Data.From == "")
 
@@ -411,6 +412,8 @@ package main
 // (a subscriber whose grant lacks J is answered 403 only after the requested change has been applied: known finding)
 //@   ensures [C08] failed_changes_nothing: err != nil && !old((asUid in t.perUser) && !t.perUser[asUid].deleted && !hasJ(t.perUser[asUid].modeGiven)) ==> t.owner == old(t.owner) && (forall u types.Uid :: (u in t.perUser) == old(u in t.perUser) && ((u in t.perUser) ==> t.perUser[u].modeWant == old(t.perUser[u].modeWant) && t.perUser[u].modeGiven == old(t.perUser[u].modeGiven) && t.perUser[u].private == old(t.perUser[u].private)))
 //@   ensures [C08] banned_request_changes_nothing: err != nil && old((asUid in t.perUser) && !t.perUser[asUid].deleted && !hasJ(t.perUser[asUid].modeGiven)) ==> t.owner == old(t.owner) && (forall u types.Uid :: (u in t.perUser) == old(u in t.perUser) && ((u in t.perUser) ==> t.perUser[u].modeWant == old(t.perUser[u].modeWant) && t.perUser[u].modeGiven == old(t.perUser[u].modeGiven) && t.perUser[u].private == old(t.perUser[u].private)))
+//@   assert at call notifySubChange#1 [C05] transfer_notice_components: $1 == t.owner && $2 == asUid && $4 == oldOwnerOldWant && $5 == oldOwnerOldGiven && $6 == oldOwnerData.modeWant && $7 == oldOwnerData.modeGiven
+//@   assert at call notifySubChange#2 [C05] own_notice_components: $1 == asUid && $2 == asUid && $4 == oldWant && $5 == oldGiven && $6 == userData.modeWant && $7 == userData.modeGiven
 //@   ensures [C07] sys_root_only: t.cat == types.TopicCatSys && !old((asUid in t.perUser) && !t.perUser[asUid].deleted) && pkt.AuthLvl != int(auth.LevelRoot) ==> err != nil && (asUid in t.perUser) == old(asUid in t.perUser)
 
 // {set sub} / invite / approval acting on another user's subscription.
@@ -431,6 +434,7 @@ package main
 //@   ensures [C07] p2p_modes: t.cat == types.TopicCatP2P && old(pkt.Set.Sub.Mode) != "" && (target in t.perUser) && t.perUser[target].modeGiven != old(t.perUser[target].modeGiven) ==> (t.perUser[target].modeGiven & ^types.ModeCP2P) == 0 && (t.perUser[target].modeGiven & types.ModeApprove) != 0
 //@   ensures [C07] p2p_default_invite: t.cat == types.TopicCatP2P && old(pkt.Set.Sub.Mode) == "" && (target in t.perUser) && t.perUser[target].modeGiven != old(t.perUser[target].modeGiven) ==> (t.perUser[target].modeGiven & ^types.ModeCP2P) == 0 && (t.perUser[target].modeGiven & types.ModeApprove) != 0
 //@   ensures [C07] no_channel_promotion: asChan ==> err != nil
+//@   assert at call notifySubChange [C05] notice_components: $1 == target && $2 == asUid && $4 == oldWant && $5 == oldGiven && $6 == userData.modeWant && $7 == userData.modeGiven
 //@   ensures [C08] failed_changes_nothing: err != nil ==> t.owner == old(t.owner) && (forall u types.Uid :: (u in t.perUser) == old(u in t.perUser) && ((u in t.perUser) ==> t.perUser[u].modeWant == old(t.perUser[u].modeWant) && t.perUser[u].modeGiven == old(t.perUser[u].modeGiven)))
 //@   assert at call store.SubsPersistenceInterface.Create [C07] limit: t.cat == types.TopicCatGrp ==> len(t.perUser) < globals.maxSubscriberCount
 
@@ -467,6 +471,7 @@ package main
 //@   modifies inferred
 //@   nopanic
 //@   safe
+//@   assert at call store.TopicsPersistenceInterface.Delete#1 [C03] paused_before_delete: topicBlocked(t)
 //@   assert at call store.TopicsPersistenceInterface.Delete#1 [C06] online_owner_only: (asUid != types.ZeroUid && t.owner == asUid && asUid == types.ParseUserId(msg.AsUser)) || t.cat == types.TopicCatP2P
 //@   assert at call store.TopicsPersistenceInterface.Delete#2 [C06] offline_empty_p2p: hasPrefix(topic, "p2p") && len(subs) == 0
 //@   assert at call store.TopicsPersistenceInterface.Delete#4 [C06] offline_last_p2p: tcat == types.TopicCatP2P && len(subs) < 2
@@ -520,6 +525,7 @@ package main
 //@ func initTopicP2P(t *Topic, sreg *ClientComMessage) (err error)
 //@   requires t != nil && sreg != nil && sreg.Sub != nil && t.perUser != nil
 //@   requires [C01] old(t.lastID) == 0 && rowMax[t.name] <= hwm[t.name]
+//@   ensures [C09] marks_from_own_rows: err == nil && !(stopic != nil && len(subs) == 2) && userID1 != userID2 ==> t.perUser[userID2].readID == sub2.ReadSeqId && t.perUser[userID2].recvID == sub2.RecvSeqId && t.perUser[userID1].readID == sub1.ReadSeqId && t.perUser[userID1].recvID == sub1.RecvSeqId
 //@   modifies inferred
 //@   ensures [C01] lastID_restored: err == nil ==> t.lastID == hwm[t.name] && rowMax[t.name] <= t.lastID
 //@   assert at call store.TopicsPersistenceInterface.CreateP2P [C07] peer_given_p2p: ($2.ModeGiven & ^types.ModeCP2P) == 0 && ($2.ModeGiven & types.ModeApprove) != 0 && ($2.ModeWant & ^types.ModeCP2P) == 0 && ($2.ModeWant & types.ModeApprove) != 0
@@ -548,9 +554,13 @@ package main
 //@   trusted
 //@   modifies nothing
 //@   ensures in != nil ==> res != nil
+// (its frame is assumed - it decodes JSON into fresh memory - but what it keeps is proved)
 //@ func pbSetDescDeserialize(in *pbx.SetDesc) (res *MsgSetDesc)
-//@   trusted
-//@   modifies nothing
+//@   modifies inferred
+//@   ensures [C20] nothing_lost_defacs: in != nil && in.DefaultAcs != nil && (in.DefaultAcs.Auth != "" || in.DefaultAcs.Anon != "") ==> res != nil
+//@   ensures [C20] nothing_lost_public: in != nil && !isnil(in.Public) ==> res != nil
+//@   ensures [C20] nothing_lost_trusted: in != nil && !isnil(in.Trusted) ==> res != nil
+//@   ensures [C20] nothing_lost_private: in != nil && !isnil(in.Private) ==> res != nil
 
 // The hub's topic registry holds only *Topic values (trusted: sync.Map is not modelled).
 //@ func (h *Hub) topicGet(name string) (t *Topic)
@@ -831,3 +841,6 @@ package main
 //@   ensures [C06] defaults_without_owner: err == nil ==> !hasO(t.accessAuth) && !hasO(t.accessAnon)
 //@   assert at call store.TopicsPersistenceInterface.Create [C06] stored_owner: $2 == t.owner && (t.owner in t.perUser) && hasO(t.perUser[t.owner].modeWant & t.perUser[t.owner].modeGiven)
 //@   assert at call store.TopicsPersistenceInterface.Create [C16] avatar_after_create: true
+//@ func pbDefaultAcsDeserialize(defacs *pbx.DefaultAcsMode) (res *MsgDefaultAcsMode)
+//@   modifies nothing
+//@   ensures [C20] kept: defacs != nil && (defacs.Auth != "" || defacs.Anon != "") ==> res != nil && res.Auth == defacs.Auth && res.Anon == defacs.Anon
